@@ -236,6 +236,10 @@ fn build(g: &G) -> (String, &'static str) {
 /// file + message with digits squashed.
 fn panic_signature(loc: &str, msg: &str) -> String {
     let file = loc.rsplit_once(':').map(|(f, _)| f).unwrap_or(loc);
+    if file.starts_with("num-rational") && msg.starts_with("attempt to") && msg.contains("overflow") {
+        // one root cause (unchecked i128 exponent arithmetic), whatever the operation
+        return "panic:num-rational:arithmetic overflow in exponent arithmetic".to_string();
+    }
     let mut m: String = msg.chars().take(70).map(|c| if c.is_ascii_digit() { '#' } else { c }).collect();
     while m.contains("##") {
         m = m.replace("##", "#");
